@@ -195,6 +195,12 @@ def gen_omen(rng, alphabet=None, ngram=None, nlevels=None, max_len=None):
     # besides plain letters: a base letter next to a stand-alone combining mark (NFD text), and two canonically equivalent code points (A-ring / ANGSTROM SIGN):
     # n-grams are windows of code points, nothing may compose or fold them
     alphabet = alphabet or rng.choice(['ab', 'abc', 'a', 'abcd', 'xyя', 'ae\u0301', 'a\u00c5\u212b', 'e\u0301\u0308'])
+    if max_len is None and rng.random() < 0.15:
+        # long guesses: more lengths than there are levels (12-21); a one- or two-letter alphabet keeps the level sets small enough to enumerate
+        if rng.random() < 0.7:
+            alphabet, max_len = alphabet[:1], rng.randint(12, 21)
+        else:
+            alphabet, max_len = alphabet[:2], rng.randint(12, 13)
     max_len = max_len or rng.randint(ngram, ngram + 3)
     pool = rng.choice([[0, 1, 2, 3], [0, 1], [0, 0, 1, 5, 10], list(range(11)), [0, 2, 4], [1, 2], [0]])
     ctxs = [''.join(t) for t in itertools.product(alphabet, repeat=ngram - 1)]
